@@ -36,7 +36,12 @@ type spMsg struct {
 	in     string // for incoming messages: command for the handler
 }
 
-func (m *spMsg) SetPeerId(p string) { m.peerId = p }
+func (m *spMsg) SetPeerId(p string) {
+	m.peerId = p
+	if m.h.copies != nil {
+		m.h.copies[m.id] = append(m.h.copies[m.id], p)
+	}
+}
 func (m *spMsg) Copy() drpc.Message {
 	m.h.offers++
 	return &spMsg{h: m.h, id: m.id, offer: m.h.offers}
@@ -50,8 +55,9 @@ type spStream struct {
 	cancel   context.CancelFunc
 	queue    int
 	tags     []string
-	blocked  bool // MsgSend never returns
-	failAt   int  // the k-th MsgSend returns an error (0 = never)
+	deliv    [][2]int // per delivered copy: its offer number, and the number of offers made so far when it was written
+	blocked  bool     // MsgSend never returns
+	failAt   int      // the k-th MsgSend returns an error (0 = never)
 	sends    int
 	lastOff  int
 	closed   bool
@@ -112,6 +118,7 @@ func (s *spStream) MsgSend(msg drpc.Message, _ drpc.Encoding) error {
 		return errSendFail
 	}
 	s.sent = append(s.sent, m.id)
+	s.deliv = append(s.deliv, [2]int{m.offer, h.offers})
 	h.delivered[s.n]++
 	h.r.Event("send", "%s m%d", s.name(), m.id)
 	return nil
@@ -149,6 +156,7 @@ type spHarness struct {
 	pool          streampool.StreamPool
 	streams       []*spStream
 	offers        int
+	copies        map[int][]string // message id -> peers a copy was addressed to
 	delivered     map[int]int
 	teardown      bool
 	openN         int
@@ -319,7 +327,7 @@ func contains(l []string, x string) bool {
 func runC19(r *core.Run) {
 	s := r.Src
 	sch := core.NewSched(r)
-	h := &spHarness{r: r, s: sch, delivered: map[int]int{}}
+	h := &spHarness{r: r, s: sch, delivered: map[int]int{}, copies: map[int][]string{}}
 	simhook.YieldFn = func(p string) { sch.Park(p) }
 	defer func() { simhook.YieldFn = nil }()
 	h.maxQueue = 1 + s.Choose("maxqueue", 4)
@@ -443,8 +451,34 @@ func runC19(r *core.Run) {
 					r.Event("call-sendbyid", "%s m%d -> %v: %v", call, m.id, o.peers, err)
 				case 2:
 					inCall[name] = "Broadcast"
+					before := h.state()
 					err = h.pool.Broadcast(context.Background(), m, o.tags...)
 					r.Event("call-broadcast", "%s m%d tags %v: %v", call, m.id, o.tags, err)
+					if err != nil {
+						// one stream's trouble (it is ending, its queue is closed) reached the caller: then at least the
+						// fan-out must have gone on - every stream that carried one of the tags before and after the
+						// call must have been offered its copy
+						after := h.state()
+						for _, tag := range o.tags {
+							for _, id := range before.ByTag[tag] {
+								still := false
+								for _, id2 := range after.ByTag[tag] {
+									still = still || id2 == id
+								}
+								x, _ := after.Objs[id].(*spStream)
+								if !still || x == nil || x.closed {
+									continue
+								}
+								got := false
+								for _, p := range h.copies[m.id] {
+									got = got || p == x.peerId
+								}
+								if !got {
+									r.Fail("fanout-aborted", "", "Broadcast of m%d to tags %v returned %v and never offered the message to %s (peer %s), which carried tag %s before and after the call: one ending stream stopped delivery to the others", m.id, o.tags, err, x.name(), x.peerId, tag)
+								}
+							}
+						}
+					}
 				case 3: // an incoming/outgoing stream is handed to the pool by the application
 					st := h.newStream(o.peers[0])
 					inCall[name] = "AddStream"
@@ -579,6 +613,24 @@ func runC19(r *core.Run) {
 			break
 		}
 		step(act)
+	}
+	// bounded buffers, seen from outside: while copy i is being written, the copies accepted before that moment and
+	// written later all sat in the stream's queue, so there are at most queue-size of them
+	for _, x := range h.streams {
+		if x.queue <= 0 {
+			continue
+		}
+		for i, d := range x.deliv {
+			waiting := 0
+			for _, e := range x.deliv[i+1:] {
+				if e[0] <= d[1] {
+					waiting++
+				}
+			}
+			if waiting > x.queue {
+				r.Fail("queue-over-limit", "held-outside-queue", "%s (queue size %d): while one message was being written, %d accepted messages were waiting behind it and were all delivered later: more than the queue holds", x.name(), x.queue, waiting)
+			}
+		}
 	}
 	st := h.state()
 	for _, x := range h.streams {
